@@ -26,8 +26,10 @@ SPEC = dict(lean_modules=MODULES, shards=8, rule=RULE)
 
 META = dict(
     technique=("Lean 4 invariant proof over an executable transition system of mutexRuntime.Eval (ghost holder of the "
-               "sync.Mutex, pointwise invariants), tied to /repo by (1) the synchronisation skeleton of mutexRuntime.Eval "
-               "re-extracted with go/ast on every run and compared by `decide`, and (2) generated concurrent ECAL programs "
+               "sync.Mutex, pointwise invariants), tied to /repo by (1) source facts re-extracted with go/ast on every run and "
+               "decided in Lean (table accesses only under MutexesMutex, named mutex's Unlock deferred unconditionally, "
+               "NewThreadID one critical section); the ordered skeleton of mutexRuntime.Eval is recorded and a change of it "
+               "amplifies the search, and (2) generated concurrent ECAL programs "
                "run on the real interpreter whose enter/exit traces are replayed on the model"),
     level_text=("Proof, for any number of threads (ids > 0, distinct), names, nesting depth, programs and schedules: "
                 "mutual_exclusion / inside_is_owner (one holder per name; every thread inside is the registered owner with "
@@ -45,6 +47,36 @@ META = dict(
 )
 
 
+# the ordered skeletons the model was written against (informational: a change amplifies the search)
+SKELETON = ["T[get M[N],get O[N],if !foundM{M=new;set M[N]=M}]", "if !foundO || O != tid", "M.Lock", "T[set O[N]=tid]",
+            "defer", "T[set O[N]=0]", "M.Unlock", "end", "else if O == tid", "end", "body"]
+ID_SKELETON = ["lock", "read", "inc", "unlock"]
+
+
+def read_skeletons():
+    import json
+    src = open(GEN).read() if os.path.exists(GEN) else ""
+    out = {}
+    for name in ("skeleton", "idSkeleton"):
+        k = src.find("def " + name + " : List String := [")
+        if k < 0:
+            out[name] = None
+            continue
+        k = src.index("[", k + len("def " + name + " : List String")) + 1
+        items = []
+        while k < len(src) and src[k] != "]":
+            if src[k] == '"':
+                e = k + 1
+                while src[e] != '"':
+                    e += 2 if src[e] == "\\" else 1
+                items.append(json.loads(src[k:e + 1]))
+                k = e + 1
+            else:
+                k += 1
+        out[name] = items
+    return out
+
+
 def extract(ctx, binp):
     if os.path.exists(GEN):
         os.remove(GEN)
@@ -57,7 +89,8 @@ def extract(ctx, binp):
 
 def split_go(res):
     """(summary, trace) of a harness result line"""
-    r = res
+    # (a case re-checked alone by checklib carries the process's stderr text in front of the result)
+    r = res.replace("Warning: The thread pool queue is filling up ...", "")
     if r.startswith("PANIC DEADLOCK "):
         r = r[len("PANIC "):]
     if " T=" in r:
@@ -158,23 +191,31 @@ def run(ctx):
                        "model": r["model"].get(i, ("", {}))[0],
                        "trace_replay": r["model"].get(i, ("", {}))[1].get("replay")} for i in idx]
     report(ctx, r)
-    if proof_broken and not r["bad"]:
-        # the skeleton (or a theorem) no longer checks and the quick cases agree: search = thorough run
-        found = False
-        if not thorough:
-            ctx.log("obligation broken, no failing case yet: running the thorough correspondence as search")
-            r2 = correspondence(ctx, binp, "thorough", 1500)
-            cov["search_evaluations"] = len(r2["cases"])
-            if r2["bad"]:
-                report(ctx, r2, limit=1)
-                found = True
-        if not found:
-            rp = checklib.write_replay(ctx, "obligation", {"failures": lres["failures"], "theorems": lres["theorems"],
-                                                           "skeleton": open(GEN).read() if os.path.exists(GEN) else None},
-                                       "all property theorems check; extracted skeleton equals the modelled one",
-                                       "see failures", "cd lean && lake build " + " ".join(MODULES),
-                                       theorem="; ".join(lres["failures"])[:500])
-            checklib.violation(ctx, rp, no_input=True)
+    sk = read_skeletons()
+    changed = [n for n, want in (("skeleton", SKELETON), ("idSkeleton", ID_SKELETON)) if sk.get(n) != want]
+    cov["skeleton_changed"] = {n: sk.get(n) for n in changed} if changed else False
+    if changed:
+        ctx.notes.append("ordered synchronisation skeleton differs from the one the model was written against "
+                         "(not a failure by itself): " + ", ".join(changed))
+    found = bool(r["bad"])
+    if (changed or proof_broken) and not found and not thorough:
+        # restructured code or a broken fact and the quick cases agree: search harder in this run
+        ctx.log("skeleton changed" if changed else "obligation broken", "- running the amplified correspondence")
+        r2 = correspondence(ctx, binp, "amplified", 900)
+        cov["amplified_evaluations"] = len(r2["cases"])
+        cov["amplified_traces_validated"] = r2["validated"]
+        cov["amplified_disagreements"] = len(r2["bad"])
+        ctx.log(f"amplified: {len(r2['cases'])} cases, {r2['validated']} traces validated, {len(r2['bad'])} disagreements")
+        if r2["bad"]:
+            report(ctx, r2, limit=1)
+            found = True
+    if proof_broken and not found:
+        rp = checklib.write_replay(ctx, "obligation", {"failures": lres["failures"], "theorems": lres["theorems"],
+                                                       "facts": open(GEN).read() if os.path.exists(GEN) else None},
+                                   "all property theorems and source facts check",
+                                   "see failures", "cd lean && lake build " + " ".join(MODULES),
+                                   theorem="; ".join(lres["failures"])[:500])
+        checklib.violation(ctx, rp, no_input=True)
     checklib.write_evidence(ctx)
     return 1 if ctx.violations else 0
 
